@@ -648,7 +648,8 @@ def run_single(desc, v, fd):
                         v.count("filtered_sweep_checks")
                         v.count("filtered_with_derivers" if spec["deriv"] else "filtered_without_derivers")
             # ---- count_sweep on a tiny real pipeline over 1..3 of the combination keys
-            avail = [k for k, _ in spec["items"]] + sorted(spec["const"] or {})
+            avail = [k for k, _ in spec["items"]]
+            avail += [k for k in sorted(spec["const"] or {}) if k not in avail]
             avail += [o_ for o_, _ in spec["deriv"] or [] if o_ not in avail]
             nroots = min(len(avail), 1 + rng.randrange(3))
             roots = rng.sample(avail, nroots)
